@@ -169,20 +169,31 @@ def main():
     hm = AutoQKHyperModel(m, metrics=["acc"], target=target, limit=dict({k: list(v) for k, v in LIMIT.items()}),
                           layer_indexes=None, quantization_config=TABLE, tune_filters="none", tune_filters_exceptions="")
     for plan in rnd2.sample(plans, 6):
-      for manual in (False, True):
+      for manual in (0, 1, 2):
         hp = StubHP({(s, r): c for (s, r, _), c in zip(slots, plan)})
         hm.groups = {}                      # as AutoQKHyperModel.build does before every trial
         qm, _ = hm.quantize_model(hp)
-        if manual:
+        if manual == 1:
           # a quantized layer whose bias is NOT quantized: the reference width applies to that tensor
           i2 = L.Input((5,))
           qm = tf.keras.Model(i2, qkeras.QDense(3, kernel_quantizer="quantized_bits(4,0,1)", bias_quantizer=None, name="dq")(i2))
+        elif manual == 2:
+          # a hand-written quantized model whose activation layers were given quantizer OBJECTS instead of strings
+          i2 = L.Input((5,))
+          x2 = qkeras.QDense(3, kernel_quantizer="quantized_bits(4,0,1)", bias_quantizer="quantized_bits(4,0,1)", name="dq")(i2)
+          x2 = qkeras.QActivation(qkeras.quantized_relu(3, 1), name="aq")(x2)
+          x2 = qkeras.QDense(2, kernel_quantizer=qkeras.ternary(), bias_quantizer=None, name="dq2")(x2)
+          qm = tf.keras.Model(i2, qkeras.QActivation(qkeras.quantized_bits(5, 1, 1), name="aq2")(x2))
         # per-class component selection: an explicitly empty list switches a class off, "parameters" only counts weights
         cfgsel = [{"default": ["parameters", "activations"]},
                   {"default": ["parameters", "activations"], "InputLayer": [], "QActivation": [], "Activation": []},
-                  {"default": ["parameters"], "QDense": ["parameters", "activations"], "Dense": ["parameters", "activations"]}][(len(events) + int(manual)) % 3]
+                  {"default": ["parameters"], "QDense": ["parameters", "activations"], "Dense": ["parameters", "activations"]}][(len(events) + int(manual > 0)) % 3]
         tb = ForgivingFactorBits(8, 8, 2, config=cfgsel)
-        total = tb.compute_model_size(qm)[0]
+        try:
+          total = tb.compute_model_size(qm)[0]
+        except Exception as e:           # the size of a valid quantized model has to be reported
+          errors.append({"k": "size_raises", "manual": int(manual), "exc": repr(e)[:300]})
+          continue
         elems, bits = [], []
         for lay in qm.layers:
           cls = lay.__class__.__name__
